@@ -36,3 +36,22 @@ pub fn vx_kw_must_str<'a>(k: &'a Kwargs, name: &str) -> (r: TeraResult<&'a str>)
 pub fn vx_kw_must_usize(k: &Kwargs, name: &str) -> (r: TeraResult<usize>)
     ensures r is Ok <==> kw_must_usize(*k, name@) is Ok, r is Ok ==> r->Ok_0 == kw_must_usize(*k, name@)->Ok_0
 { unimplemented!() }
+#[verifier::external_body]
+pub struct Map { _p: () }
+pub uninterp spec fn map_get(m: Map, k: Seq<char>) -> Option<Value>;
+pub uninterp spec fn len_spec(v: Value) -> Option<usize>;
+impl Value {
+    #[verifier::external_body]
+    pub fn len(&self) -> (r: Option<usize>) ensures r == len_spec(*self) { unimplemented!() }
+}
+impl Clone for Value { #[verifier::external_body] fn clone(&self) -> (r: Self) ensures r == *self { unimplemented!() } }
+/// `val.get(&Key::Str(key))`
+#[verifier::external_body]
+pub fn vx_map_get_str<'a>(m: &'a Map, k: &str) -> (r: Option<&'a Value>)
+    ensures r is Some <==> map_get(*m, k@) is Some, r is Some ==> *r->Some_0 == map_get(*m, k@)->Some_0
+{ unimplemented!() }
+pub uninterp spec fn kw_value(k: Kwargs, name: Seq<char>) -> Result<Option<Value>, Error>;
+#[verifier::external_body]
+pub fn vx_kw_value(k: &Kwargs, name: &str) -> (r: TeraResult<Option<Value>>)
+    ensures r is Ok <==> kw_value(*k, name@) is Ok, r is Ok ==> r->Ok_0 == kw_value(*k, name@)->Ok_0
+{ unimplemented!() }
